@@ -212,7 +212,11 @@ type c05File struct {
 	multi   bool            // set while checking: the file has several row groups
 	skip    map[string]bool // columns written with SkipPageBounds
 	copyToo bool            // also copy the file with WriteRowGroup and check the copy
+	copied  bool            // set while checking the WriteRowGroup copy of the file
 }
+
+// recordSample: the whole-record mirror (c05.record) is asked for one file in four (and on replays)
+func (f *c05File) recordSample() bool { return f.only != "" || (len(f.rows)+f.lim)%4 == 0 }
 
 func (f *c05File) colText(ci int) string {
 	k := c05KindByName(c05Cols[ci].kind)
@@ -536,7 +540,7 @@ func c05DecodeStats(k *c05Kind, st *format.Statistics, hasValues bool) (s c05Sta
 
 func runStatsFiles(ctx *core.Ctx, c05 bool) {
 	if c05 {
-		ctx.SetRule("files written with the typed GenericWriter from a 32-column struct (required+optional int32/int64/uint32/uint64/float/double/string/[]byte/FLBA(5)/FLBA(20)/be128/uuid/decimal int32,int64,FLBA(9)/bool), PageBufferSize(1) so each Write call is one page per column, all-null pages in every position, all-NaN pages, ColumnIndexSizeLimit 1..64, page versions 1 and 2, data page statistics on; read back through the page reader; recorded column index / offset index / chunk statistics / page header statistics checked against the values read (L1) and against the Lean mirrors of Bounds and of the chunk fold (L2); distinct by file content, non-trivial = at least 2 pages")
+		ctx.SetRule("files written with the typed GenericWriter from a 32-column struct (required+optional int32/int64/uint32/uint64/float/double/string/[]byte/FLBA(5)/FLBA(20)/be128/uuid/decimal int32,int64,FLBA(9)/bool), PageBufferSize(1) so each Write call is one page per column, all-null pages in every position, all-NaN pages, ColumnIndexSizeLimit 1..64, page versions 1 and 2, data page statistics on; plus files of dictionary-encoded columns of every order (c05DictRow: DictionaryMaxBytes 0/1..96 so chunks fall back to PLAIN mid-way, variable-width BYTE_ARRAY decimals with equal values in different widths) and WriteRowGroup copies (verbatim and re-encoded, the re-encoded copy's chunk statistics compared with the source's); read back through the page reader; recorded column index / offset index / chunk statistics / page header statistics checked against the values read (L1) and against the Lean mirrors of Bounds, of the chunk fold, of the whole chunk record and of the level model of nested pages (L2); distinct by file content, non-trivial = at least 2 pages")
 	} else {
 		ctx.SetRule("same generated files as C05/files: parquet.Search on the file's column index for every distinct value of every page (must return a page at or before the first page holding the value, whose bounds contain it) and for absent probes around the bounds; distinct by file content, non-trivial = at least 2 pages")
 	}
@@ -573,6 +577,9 @@ func runStatsFiles(ctx *core.Ctx, c05 bool) {
 				}
 				for i := w; i < ctx.Scale(300, 8000); i += workers {
 					c05HistFile(ctx, b, fmt.Sprintf("statshist#%d", i))
+				}
+				for i := w; i < ctx.Scale(240, 6000); i += workers {
+					c05DictFile(ctx, b, fmt.Sprintf("statsdict#%d", i))
 				}
 			}
 			for i := 0; i < nfiles/workers; i++ {
@@ -614,7 +621,7 @@ func c05CheckFile(ctx *core.Ctx, b *c05Batch, f *c05File, c05 bool, sample bool)
 		ctx.Fail("L1", "writer-panic", fmt.Sprint(pan), base)
 		return
 	}
-	c05CheckData(ctx, b, f, data, c05, base)
+	src := c05CheckData(ctx, b, f, data, c05, base)
 	if c05 && f.copyToo && f.only == "" {
 		// statistics copied by the verbatim row-group copy path must still describe the copied pages
 		cp, copied, pan := f.copy(data)
@@ -632,13 +639,17 @@ func c05CheckFile(ctx *core.Ctx, b *c05Batch, f *c05File, c05 bool, sample bool)
 		} else {
 			ctx.Hist("copied-file", "re-encoded")
 		}
-		c05CheckData(ctx, b, f, cp, c05, cbase)
+		f.copied = true
+		dst := c05CheckData(ctx, b, f, cp, c05, cbase)
+		f.copied = false
+		if copied == 0 && src != nil && dst != nil {
+			c05CompareReencoded(ctx, f, src, dst, cbase)
+		}
 	}
 }
 
 // c05CheckData checks one file image (as written, or as copied) against the values read back from it.
-func c05CheckData(ctx *core.Ctx, b *c05Batch, f *c05File, data []byte, c05 bool, base map[string]any) {
-	var pf *parquet.File
+func c05CheckData(ctx *core.Ctx, b *c05Batch, f *c05File, data []byte, c05 bool, base map[string]any) (pf *parquet.File) {
 	if p := c05Recover(func() {
 		var err error
 		pf, err = parquet.OpenFile(bytes.NewReader(data), int64(len(data)))
@@ -647,12 +658,12 @@ func c05CheckData(ctx *core.Ctx, b *c05Batch, f *c05File, data []byte, c05 bool,
 		}
 	}); p != nil {
 		ctx.Fail("L1", "open-file-failed", fmt.Sprint(p), base)
-		return
+		return nil
 	}
 	rgs := pf.RowGroups()
 	if f.maxRows == 0 && len(rgs) != 1 {
 		ctx.Fail("L1", "unexpected-row-groups", fmt.Sprintf("%d row groups", len(rgs)), base)
-		return
+		return pf
 	}
 	ctx.Hist("file-row-groups", c05Bucket(len(rgs)))
 	f.multi = len(rgs) > 1
@@ -742,6 +753,66 @@ func c05CheckData(ctx *core.Ctx, b *c05Batch, f *c05File, data []byte, c05 bool,
 	}
 	if rowsSeen != total {
 		ctx.Fail("L1", "row-groups-lose-rows", fmt.Sprintf("%d rows written, %d rows in %d row groups", total, rowsSeen, len(rgs)), base)
+	}
+	return pf
+}
+
+// c05CompareReencoded: a RE-ENCODED copy (WriteRowGroup that could not splice the chunk) recomputes every
+// statistic from the values it reads back. Model (`reencode_sound`): the new record depends on the value
+// sequence only, so per chunk the counts equal the source's and the chunk min/max are equal in the
+// column's order (both are attained bounds of the same values), whatever pages the copy cut.
+func c05CompareReencoded(ctx *core.Ctx, f *c05File, src, dst *parquet.File, base map[string]any) {
+	a, c := src.Metadata().RowGroups, dst.Metadata().RowGroups
+	if len(a) != len(c) {
+		ctx.Hist("reencoded-row-groups", "regrouped")
+		return
+	}
+	ctx.Hist("reencoded-row-groups", "aligned")
+	for g := range a {
+		if a[g].NumRows != c[g].NumRows || len(a[g].Columns) != len(c[g].Columns) || len(a[g].Columns) != len(c05Cols) {
+			return
+		}
+		for ci, col := range c05Cols {
+			if f.skip[col.name] {
+				continue
+			}
+			k := *c05KindByName(col.kind)
+			k.typ = src.RowGroups()[g].ColumnChunks()[ci].Type()
+			ma, mc := &a[g].Columns[ci].MetaData, &c[g].Columns[ci].MetaData
+			detail := func(extra map[string]any) map[string]any {
+				m := map[string]any{"op": "file", "column": col.name, "kind": col.kind, "pages": f.colText(ci), "row_group": g}
+				for kk, v := range base {
+					m[kk] = v
+				}
+				for kk, v := range extra {
+					m[kk] = v
+				}
+				return m
+			}
+			if ma.NumValues != mc.NumValues || ma.Statistics.NullCount != mc.Statistics.NullCount {
+				ctx.Fail("L1", "reencoded-counts-differ "+col.kind, fmt.Sprintf("source chunk: num_values=%d null_count=%d, re-encoded copy: num_values=%d null_count=%d", ma.NumValues, ma.Statistics.NullCount, mc.NumValues, mc.Statistics.NullCount), detail(nil))
+				continue
+			}
+			hasValues := ma.NumValues > ma.Statistics.NullCount
+			sa, oka := c05DecodeStats(&k, &ma.Statistics, hasValues)
+			sc, okc := c05DecodeStats(&k, &mc.Statistics, hasValues)
+			if !oka || !okc || !sa.has || !sc.has {
+				if oka && okc && sa.has != sc.has {
+					ctx.Fail("L2", "reencoded-stats-differ "+col.kind, "one of the source chunk and its re-encoded copy has min/max, the other has none", detail(nil))
+				}
+				continue
+			}
+			if k.isNaN(sa.min) || k.isNaN(sc.min) || k.isNaN(sa.max) || k.isNaN(sc.max) {
+				if (k.isNaN(sa.min) != k.isNaN(sc.min)) || (k.isNaN(sa.max) != k.isNaN(sc.max)) {
+					ctx.Fail("L2", "reencoded-stats-differ "+col.kind, "NaN chunk bound in only one of the source chunk and its re-encoded copy", detail(map[string]any{"source": k.text(sa.min) + ":" + k.text(sa.max), "copy": k.text(sc.min) + ":" + k.text(sc.max)}))
+				}
+				continue
+			}
+			if k.cmp(sa.min, sc.min) != 0 || k.cmp(sa.max, sc.max) != 0 {
+				ctx.Fail("L2", "reencoded-stats-differ "+col.kind, "chunk min/max of a re-encoded copy differ (in the column's order) from the source chunk's, although both describe the same values", detail(map[string]any{"source": k.text(sa.min) + ":" + k.text(sa.max), "copy": k.text(sc.min) + ":" + k.text(sc.max)}))
+			}
+			ctx.Hist("reencoded-chunk-compared", col.kind)
+		}
 	}
 }
 
@@ -1048,7 +1119,7 @@ func c05CheckChunk(ctx *core.Ctx, b *c05Batch, k *c05Kind, col c05Col, f *c05Fil
 					switch {
 					case skipped:
 						ctx.Fail("L1", "skip-page-bounds-zero-index", "a column written with SkipPageBounds has a column index whose min/max (the zero value, null_pages=false) do not bound the page: readers pruning by it skip pages that hold matching values", d())
-					case key == "max-below-value" && k.isBytes() && c05TruncAllFF(p.vals, f.lim):
+					case key == "max-below-value" && k.isBytes() && k.drv != "dec" && c05TruncAllFF(p.vals, f.lim): // (the decimal indexer never truncates)
 						ctx.Fail("L1", "truncmax-all-ff-prefix", "column index max is smaller than a value of the page: the max was truncated to a prefix of all 0xFF bytes", d())
 					default:
 						ctx.Fail("L1", c05BoundKey("index-", key, col.kind), "column index: "+what, d())
@@ -1176,6 +1247,33 @@ func c05CheckChunk(ctx *core.Ctx, b *c05Batch, k *c05Kind, col c05Col, f *c05Fil
 	if len(all) > 0 && !s.has && !skipped {
 		ctx.Fail("L1", "chunk-stats-missing "+col.kind, "the chunk has values but no min/max", d())
 	}
+	// the same statistics through the reader API a pruning reader calls (FileColumnChunk.Bounds/NullCount/NumValues)
+	if fcc, isFile := cc.(*parquet.FileColumnChunk); isFile && !skipped {
+		var amn, amx c05Val
+		var has bool
+		if p := c05Recover(func() {
+			mn, mx, ok := fcc.Bounds()
+			has = ok
+			if ok {
+				amn, amx = k.fromValue(mn), k.fromValue(mx)
+			}
+		}); p != nil {
+			ctx.Fail("L1", "filechunk-bounds-panic "+col.kind, fmt.Sprint(p), d())
+		} else {
+			da := func() map[string]any {
+				return detail(map[string]any{"api_min": k.text(amn), "api_max": k.text(amx), "api_has": has, "api_nulls": fcc.NullCount(), "api_num_values": fcc.NumValues()})
+			}
+			if key, what := c05BoundsOracle(k, all, amn, amx, has, false); key != "" && key != "bound-nan-with-non-nan-values" {
+				ctx.Fail("L1", c05BoundKey("filechunk-bounds-", key, col.kind), "FileColumnChunk.Bounds(): "+what, da())
+			}
+			if has != s.has || (has && !k.isNaN(amn) && !k.isNaN(s.min) && (k.cmp(amn, s.min) != 0 || k.cmp(amx, s.max) != 0)) {
+				ctx.Fail("L1", "filechunk-bounds-differ-from-metadata "+col.kind, "FileColumnChunk.Bounds() does not return the min/max of the chunk's statistics", da())
+			}
+			if fcc.NullCount() != int64(totalNulls) || fcc.NumValues() != int64(total) {
+				ctx.Fail("L1", "filechunk-counts-wrong "+col.kind, fmt.Sprintf("FileColumnChunk.NullCount()=%d NumValues()=%d, %d nulls and %d values read", fcc.NullCount(), fcc.NumValues(), totalNulls, total), da())
+			}
+		}
+	}
 	// L2: the chunk fold of recordPageStats over the exact page bounds
 	if k.drv != "" && pageBounds != nil && len(pageBounds) == len(pages) && !skipped {
 		got := "ok none"
@@ -1185,6 +1283,49 @@ func c05CheckChunk(ctx *core.Ctx, b *c05Batch, k *c05Kind, col c05Col, f *c05Fil
 		b.ask("c05.fold "+k.drv+" "+c05PagesText(k, pageBounds), func(ans string) {
 			if ans != got {
 				ctx.Fail("L2", "chunk-fold-mirror "+col.kind, "chunk statistics differ from the Lean mirror of the recordPageStats fold over the page bounds", detail(map[string]any{"impl": got, "model": ans, "page_bounds": c05PagesText(k, pageBounds)}))
+			}
+		})
+	}
+	// L2: the whole record of the chunk (`writerRecord`, the object of `writerRecord_sound` /
+	// `reencode_sound`): exact page bounds, per-page null counts, chunk min/max and chunk null count from
+	// the values read back, in one model evaluation — every chunk of a copied file, a sample of the others
+	if k.drv != "" && pageBounds != nil && len(pageBounds) == len(pages) && !skipped && len(pages) > 0 && (f.copied || f.recordSample()) {
+		var sb strings.Builder
+		nulls := make([]string, len(pages))
+		for i, p := range pages {
+			if i > 0 {
+				sb.WriteByte(';')
+			}
+			first := true
+			for j := 0; j < p.nulls; j++ {
+				if !first {
+					sb.WriteByte(',')
+				}
+				sb.WriteByte('n')
+				first = false
+			}
+			for _, v := range p.vals {
+				if !first {
+					sb.WriteByte(',')
+				}
+				sb.WriteString(k.text(v))
+				first = false
+			}
+			if first {
+				sb.WriteByte('-')
+			}
+			nulls[i] = fmt.Sprint(p.nulls)
+		}
+		chunk := "none"
+		if s.has {
+			chunk = k.text(s.min) + ":" + k.text(s.max)
+		}
+		got := fmt.Sprintf("ok %s %s %s %d", c05PagesText(k, pageBounds), strings.Join(nulls, ","), chunk, s.nulls)
+		pagesText := sb.String()
+		ctx.Hist("record-mirror-asked", col.kind)
+		b.ask("c05.record "+k.drv+" "+pagesText, func(ans string) {
+			if ans != got {
+				ctx.Fail("L2", "chunk-record-mirror "+col.kind, "page bounds, null counts and chunk statistics of the chunk differ from the Lean mirror of the writer's record over the values read back", detail(map[string]any{"impl": got, "model": ans, "values_read": pagesText, "build": ctx.Variant}))
 			}
 		})
 	}
